@@ -33,6 +33,7 @@ using ComponentNameMap = std::map<std::string, ComponentPtr>; /**< Type definiti
 
 using IndexStack = std::vector<size_t>; /**< Type definition for tracking indices. */
 using EquivalenceMap = std::map<IndexStack, std::vector<IndexStack>>; /**< Type definition for map of variable equivalences defined over model. */
+using ImportSourceMap = std::map<ImportSourcePtr, ImportSourcePtr>; /**< Type definition for map from import sources to their clones. */
 
 using NamePair = std::pair<std::string, std::string>; /**< Type definition for pair of names. */
 using NameList = std::vector<std::string>; /**< Type definition for list of names. */
